@@ -213,6 +213,43 @@ def run_rtier(pid, tier, seed, out, ev):
     return ctx
 
 
+def run_conformance(pid, cfg, tier, seed, out, ev):
+    """Engine soundness cross-check (vf/conformance.py): the symbolic paths of every contracted function with
+    scalar / Pos parameters must admit what CPython does on sampled inputs; thorough tier also runs the
+    python- and numpy-semantics corpora of selftest/pysem.  A mismatch is a CHECKER ERROR, never a verdict."""
+    from . import conformance
+    thorough = tier == "thorough"
+    res = conformance.run(REPO_DIR, cfg.CONTRACT_MODULES, list(cfg.FUNCTIONS), samples=150 if thorough else 12, seed=seed,
+                          budget_s=60.0 if thorough else 8.0)
+    corpus = []
+    if thorough:
+        corpus = run_corpus(seed, samples=60)
+    rows = []
+    for r in res + corpus:
+        row = {k: v for k, v in r.items() if k not in ("trace",)}
+        rows.append(row)
+        if r["status"] == "mismatch":
+            out.errors.append("engine conformance: the symbolic semantics of %s do not admit CPython's behaviour on %s "
+                              "(native: %s)" % (r["function"], r["first_mismatch"]["inputs"], r["first_mismatch"]["native"]))
+        elif r["status"] == "engine_error":
+            out.errors.append("engine conformance run failed for %s: %s" % (r["function"], r.get("why")))
+    ev["engine_conformance"] = {
+        "what": "sampled admission check of the symbolic executor against CPython (soundness direction); not a proof",
+        "functions_checked": sum(1 for r in rows if r["status"] == "ok"),
+        "samples": sum(r.get("samples", 0) for r in rows), "rows": rows,
+    }
+
+
+def run_corpus(seed, samples=60):
+    from . import conformance
+    st = os.path.join(VERIF_DIR, "selftest")
+    if st not in sys.path:
+        sys.path.insert(0, st)
+    import pysem.contracts as pc
+    return conformance.run(st, ["pysem.contracts"], pc.FUNCTIONS + pc.NP_FUNCTIONS, samples=samples, seed=seed,
+                           budget_s=60.0, workers=16)
+
+
 def run_property(pid, tier, seed, only=None):
     t0 = time.time()
     out = Outcome()
@@ -225,6 +262,8 @@ def run_property(pid, tier, seed, only=None):
     try:
         if only in (None, "d"):
             run_dtier(pid, cfg, tier, seed, out, ev)
+        if only in (None, "d"):
+            run_conformance(pid, cfg, tier, seed, out, ev)
         ctx = None
         if only in (None, "r"):
             ctx = run_rtier(pid, tier, seed, out, ev)
@@ -314,6 +353,7 @@ def write_evidence(pid, cfg, tier, seed, out, ev, wall):
         "deductive_tier": d, "bounded_tier": r,
         "undecided": out.undecided,
         "known_findings": sorted(set(e.get("text") for e, _ in out.known)),
+        "engine_conformance": ev.get("engine_conformance"),
     }
     doc = {
         "property_id": pid, "tier": tier, "seed": seed, "level": level, "coverage": cov,
